@@ -24,10 +24,10 @@ def replay_iso0(pin, pan):
     return False, 'ok', None
 
 
-def replay_iso4(pin, random):
+def replay_iso4(pin, random, positional=False):
     from cardutil import pinblock
     try:
-        obj = pinblock.Iso4PinBlock(pin, random_value=random)
+        obj = pinblock.Iso4PinBlock(pin, random) if positional else pinblock.Iso4PinBlock(pin, random_value=random)
         blk = obj.to_bytes()
     except Exception as e:
         return True, 'raised %s' % type(e).__name__, 'C13/iso4-exception'
